@@ -527,3 +527,9 @@ for _p in ("C04", "C14"):
         {"file": PRJ, "old": "            for closest in global_results[PrecedenceType.CLOSEST]:\n                if file_result.copyright_lines:\n                    closest = closest.copy(copyright_lines=set())\n                else:\n                    closest = closest.copy(spdx_expressions=set())\n                if closest.contains_copyright_or_licensing():\n                    result.append(closest)\n",
          "new": "            _add_missing_half(result, file_result, global_results[PrecedenceType.CLOSEST])\n"},
         {"file": PRJ, "old": "class Project:\n", "new": "def _add_missing_half(acc, own, candidates):\n    for closest in candidates:\n        if own.copyright_lines:\n            closest = closest.copy(copyright_lines=set())\n        else:\n            closest = closest.copy(spdx_expressions=set())\n        if closest.contains_copyright_or_licensing():\n            acc.append(closest)\n\n\nclass Project:\n"}]})
+# ----------------------------------------------------------------- benign multi-hunk refactors kept as patches
+import os as _os
+_BP = _os.path.join(_os.path.dirname(_os.path.abspath(__file__)), "benign_patches")
+for _p in ("C19", "C15", "C11"):
+    VARIANTS.append({"prop": _p, "id": f"{_p}:benign5-download-one-helper", "expect": "S", "rule": "", "edits": [],
+                     "patchfile": _os.path.join(_BP, "c19-download-one-helper.diff")})
